@@ -40,6 +40,10 @@ static void build(int kind, int a, int b, Var& v, RV& r, bool ident)
 	case 7: { char k[8]; symstr(k, a, ident); char t[8]; symstr(t, b, false); Var o; o[String(k)] = (const char*)t; o[String("n")] = 7; v = o;
 		vp_assume(strcmp(k, "n") != 0);
 		r.tag = T_OBJ; r.c = newc(); RC& c = pool[r.c]; c.n = 2; strcpy(c.key[0], k); c.el[0] = rstr(t); strcpy(c.key[1], "n"); c.el[1] = rint(7); break; }
+	case 9: { double d = DBL[a]; Var arr; arr << d << 2; Var o; o[String("a")] = d; o[String("b")] = 7; o[String("c")] = arr; v = o;    // exponent-form numbers followed by other items
+		int ca = newc(); pool[ca].n = 2; pool[ca].el[0] = rnone(); pool[ca].el[0].tag = T_NUM; pool[ca].el[0].d = d; pool[ca].el[1] = rint(2);
+		r.tag = T_OBJ; r.c = newc(); RC& c = pool[r.c]; c.n = 3; strcpy(c.key[0], "a"); c.el[0] = rnone(); c.el[0].tag = T_NUM; c.el[0].d = d; strcpy(c.key[1], "b"); c.el[1] = rint(7);
+		strcpy(c.key[2], "c"); c.el[2] = rnone(); c.el[2].tag = T_ARR; c.el[2].c = ca; break; }
 	case 8: { Var inner; inner[String("b")] = "x"; Var arr; arr << 1 << inner << true; Var o; o[String("a")] = arr; o[String("e")] = Var(Var::ARRAY); o[String("o")] = Var(Var::OBJ); v = o;
 		int ci = newc(); pool[ci].n = 1; strcpy(pool[ci].key[0], "b"); pool[ci].el[0] = rstr("x");
 		int ca = newc(); pool[ca].n = 3; pool[ca].el[0] = rint(1); pool[ca].el[1] = rnone(); pool[ca].el[1].tag = T_OBJ; pool[ca].el[1].c = ci; pool[ca].el[2] = rnone(); pool[ca].el[2].tag = T_BOOL; pool[ca].el[2].i = 1;
